@@ -340,6 +340,70 @@ def misspelt(spec, acc):
         # layer rule mentioning a layer that was never defined / whose module does not exist
         if rnd.random() < 0.25:
             layer_misspelt(rnd, evl, good, bad if fk != "regex" else real + "_q", acc)
+        if rnd.random() < 0.3:
+            several_patterns_one_unmatched(rnd, evl, present, good, acc)
+        if rnd.random() < 0.3:
+            diagram_with_absent_component(rnd, evl, present, acc)
+
+
+def several_patterns_one_unmatched(rnd, evl, present, good, acc):
+    """Two patterns on ONE side of a rule, one matching something and one matching nothing:
+    have_name_containing([..]) and layer rules over two regex-defined layers."""
+    from pytestarch import LayeredArchitecture, LayerRule, Rule
+
+    other = rnd.choice(sorted(m for m in present if m != good) or [good])
+    verb = rnd.choice(["should", "should_only", "should_not"])
+    HUB.case = {"kind": "several_patterns", "good": good, "other": other}
+    r = Rule().modules_that()
+    pats = [good, "*no_such_module_qq"]
+    rnd.shuffle(pats)
+    if rnd.random() < 0.5:
+        r = getattr(r.have_name_containing(pats), verb)().import_modules_that().are_named(other)
+    else:
+        r = getattr(r.are_named(other), verb)().be_imported_by_modules_that().have_name_containing(pats)
+    run(r, evl)
+    acc.evaluated()
+    acc.count("several_patterns_one_unmatched")
+    rx_good, rx_bad = "^" + good.replace(".", r"\.") + "$", "^no_such_layer_module_qq$"
+    arch = LayeredArchitecture().layer("S").containing_modules([other]).layer("G").have_modules_with_names_matching(rx_good).layer("B").have_modules_with_names_matching(rx_bad)
+    objs = ["G", "B"]
+    rnd.shuffle(objs)
+    lr = getattr(LayerRule().based_on(arch).layers_that().are_named("S"), verb)()
+    lr = getattr(lr, rnd.choice(["access_layers_that", "be_accessed_by_layers_that", "access_layers_except_layers_that"]))().are_named(objs)
+    o, _ = run(lr, evl)
+    acc.evaluated()
+    if o in ("pass", "fail"):
+        HUB.violation("C13", "layer-rule-unmatched-regex-layer-verdict", f"layer rule over a regex layer that matches no module produced the verdict '{o}'", {"good": good, "other": other, "objects": objs, "verb": verb})
+
+
+def diagram_with_absent_component(rnd, evl, present, acc):
+    """A DiagramRule whose diagram names a module that is absent from the architecture."""
+    from pytestarch import DiagramRule
+
+    from ..monitors_more import register_puml
+
+    tops = sorted(m for m in present if m.count(".") == 1)
+    if len(tops) < 2:
+        return
+    a, b = rnd.sample(tops, 2)
+    how = rnd.choice(["misspelt-component", "misspelt-base", "relative-names-without-base"])
+    d = os.path.join(trees.scratch_dir(), "puml13b")
+    os.makedirs(d, exist_ok=True)
+    path = os.path.join(d, f"x{acc.evaluations}.puml")
+    sa, sb = a.split(".", 1)[1], b.split(".", 1)[1]
+    if how == "misspelt-component":
+        comps, rel = [sa, sb + "_zz"], [(sa, sb + "_zz")]
+    else:
+        comps, rel = [sa, sb], [(sa, sb)]
+    open(path, "w").write("@startuml\n" + "\n".join(f"[{x}] --> [{y}]" for x, y in rel) + "\n@enduml\n")
+    register_puml(path, comps, rel)
+    r = DiagramRule(should_only_rule=rnd.random() < 0.5).from_file(Path(path))
+    r = r.with_base_module("r") if how == "misspelt-component" else r.with_base_module("rr") if how == "misspelt-base" else r.base_module_included_in_module_names()
+    HUB.case = {"kind": "diagram_absent", "how": how, "a": a, "b": b}
+    run(r, evl)
+    acc.evaluated()
+    acc.hist("diagram_absent_component", how)
+    os.unlink(path)
 
 
 def layer_misspelt(rnd, evl, good, bad, acc):
@@ -395,7 +459,7 @@ def floors(acc, tier):
         for c in need:
             if acc.hists.get(hist, {}).get(c, 0) == 0:
                 why.append(f"{hist}: class {c} never observed")
-    for c, n in (("c13_rule_evaluations", 5000), ("c13_layer_evaluations", 500), ("c13_diagram_evaluations", 50), ("c13_entry_point_invalid_calls", 50), ("c13_unknown_module_evaluations", 300), ("c13_unmatched_regex_evaluations", 50), ("c13_calls_that_must_raise", 100)):
+    for c, n in (("c13_rule_evaluations", 5000), ("c13_layer_evaluations", 500), ("c13_diagram_evaluations", 50), ("c13_entry_point_invalid_calls", 50), ("c13_unknown_module_evaluations", 300), ("c13_unmatched_regex_evaluations", 50), ("c13_calls_that_must_raise", 100), ("several_patterns_one_unmatched", 50), ("c13_diagram_unknown_component_evaluations", 50)):
         if acc.counters[c] < n:
             why.append(f"{c}: only {acc.counters[c]}")
     acc.flags["exhaustive"] = all(acc.flags.get(f) for f in ("exhaustive_rule_sequences", "exhaustive_layer_sequences", "exhaustive_mutations", "exhaustive_entry_options"))
